@@ -151,7 +151,7 @@ def reduce_event(c, idx=0):
     k2 = KAPPA[idx % len(KAPPA)]
     cut = cutoff_mrad(k2)
     f = (c["f1"], c["f2"])
-    ev = {"k": "reduce", "case": c, "idx": idx, "raised": False, "reference_raised": False, "shape_ok": True, "det_shape_ok": True, "lazy_shape_ok": True, "waves_ppb": [], "det_ppb": [], "lazy_ppb": []}
+    ev = {"k": "reduce", "case": c, "idx": idx, "raised": False, "reference_raised": False, "shape_ok": True, "det_shape_ok": True, "lazy_shape_ok": True, "waves_ppb": [], "det_ppb": [], "lazy_ppb": [], "series_ppb": []}
     with warnings.catch_warnings():
         warnings.simplefilter("ignore")
         pot = potential_for(c["potential"], extent, gpts)
@@ -275,6 +275,18 @@ def reduce_event(c, idx=0):
                 bt = smatrix().build(lazy=False).reduce(scan=scan, ctf=ctf if hist == "ctf_reused" else ctf.copy())
                 bt = np.asarray((bt.compute() if hasattr(bt, "compute") else bt).array)
                 ev["lazy_ppb"].append(ppb(relerr(bt, got)) if bt.shape == got.shape else 10 ** 9)
+                # a CTF that carries a SERIES of defocus values: member k of the reduction is the reduction with the scalar CTF k
+                vals = [10.0, 35.0, -20.0]
+                ser = smatrix().reduce(scan=scan, ctf=abtem.CTF(semiangle_cutoff=cut, energy=ENERGY, defocus=abtem.distributions.from_values(np.array(vals))),
+                                       lazy=False)
+                axs = [i for i, a in enumerate(ser.ensemble_axes_metadata) if type(a).__name__ == "ParameterAxis" and len(a.values) == len(vals)]
+                if len(axs) == 1:
+                    sa = np.moveaxis(np.asarray(ser.array), axs[0], 0)
+                    for kk, v in enumerate(vals):
+                        one = np.asarray(smatrix().reduce(scan=scan, ctf=abtem.CTF(semiangle_cutoff=cut, energy=ENERGY, defocus=v), lazy=False).array)
+                        ev["series_ppb"].append(ppb(relerr(sa[kk], one)) if sa[kk].shape == one.shape else 10 ** 9)
+                else:
+                    ev["series_ppb"].append(10 ** 9)
                 # schedules: a lazy reduction with the default aperture (ctf=None) that is computed only AFTER another S-matrix with the
                 # same cutoff but another energy and cell has been reduced in the same process
                 SA = smatrix()
@@ -355,7 +367,7 @@ def judge(ctx: Ctx, evs):
 
 
 def self_test(ctx: Ctx):
-    g = {"k": "reduce", "raised": False, "reference_raised": False, "shape_ok": True, "det_shape_ok": True, "lazy_shape_ok": True, "waves_ppb": [120], "det_ppb": [3, 900], "lazy_ppb": []}
+    g = {"k": "reduce", "raised": False, "reference_raised": False, "shape_ok": True, "det_shape_ok": True, "lazy_shape_ok": True, "waves_ppb": [120], "det_ppb": [3, 900], "lazy_ppb": [], "series_ppb": []}
     b = {"k": "beams", "W": 8, "H": 8, "D": 2, "Kn": 3, "Kd": 10, "f1": 1, "f2": 1, "B": 3,
          "beams": [[0, 0], [1, 0], [-1, 0], [0, 1], [0, -1]], "off_lattice": False}       # (n/4)^2 + (m/4)^2 < 0.09  <=>  n^2 + m^2 < 1.44; outer edge 0.3 + 0.125: n^2 + m^2 < 2.89
     w = {"k": "window", "n": [4, 4], "w": [2, 2], "corners": [[-1, 3]], "raised": False, "got": [[[3, 0], [3, 0]]]}
